@@ -24,6 +24,13 @@ Proof. destruct u; reflexivity. Qed.
 Lemma set_ltriple_id u : set_ltriple u (ltriple u) = u.
 Proof. destruct u; reflexivity. Qed.
 
+Ltac skip_mod H :=
+  match type of H with
+  | bind (put_session _ _) _ _ = _ => unfold bind at 1, put_session at 1, modify at 1 in H
+  | bind (del_session _) _ _ = _ => unfold bind at 1, del_session at 1, modify at 1 in H
+  | bind (log _) _ _ = _ => unfold bind at 1, log at 1, modify at 1 in H
+  end.
+
 Section LW.
 Variable E : env.
 Hypothesis nofaults : o_faults (e_O E) = [].
@@ -771,12 +778,6 @@ Proof.
   - intros p Np. rewrite St, ulookup_uput_neq by exact Np. apply Fr. exact Np.
 Qed.
 
-Ltac skip_mod H :=
-  match type of H with
-  | bind (put_session _ _) _ _ = _ => unfold bind at 1, put_session at 1, modify at 1 in H
-  | bind (del_session _) _ _ = _ => unfold bind at 1, del_session at 1, modify at 1 in H
-  | bind (log _) _ _ = _ => unfold bind at 1, log at 1, modify at 1 in H
-  end.
 
 (* 3'. /2fa/totp/validate *)
 Theorem totp_lemma h r h' P u0 u1 st :
@@ -1109,6 +1110,23 @@ Proof.
   eexists. split; [exact A|]. destruct (blocked u || enrolled u); split; reflexivity.
 Qed.
 
+
+(* a wrong password on an account that is already locked: the attempt still counts, and the
+   account stays locked *)
+Theorem login_locked_wrong_lemma h r h' u :
+  login_post E h = (r, h') -> keyed (h_st h) ->
+  ulookup pid (users h) = Some u ->
+  pwcheck (e_C E) (u_password u) (aget f_password vals) = false ->
+  now < u_locked u -> 0 < c_lock_duration cfg ->
+  exists u', ulookup pid (users h') = Some u' /\
+    ltriple u' = lstep lc (ltriple u) FAIL /\ is_locked E u' = true.
+Proof.
+  intros Eq Ky Lu Pw Lk Hd. destruct (login_wrong_lemma _ _ _ _ Eq Ky Lu Pw) as (_ & A & _).
+  eexists. split; [exact A|]. split; [apply ltriple_set|]. exact (fail_keeps_locked E u Hd Lk).
+Qed.
+
+End Readable.
+
 (* ---- the two other requests that fire the auth events: password recovery, OAuth2 callback ------ *)
 Lemma fire_bind {B} e rm (K : bool -> M B) h r h' P w L :
   e <> EvAfterRegister -> e <> EvBeforeHijack -> at_ P w L h ->
@@ -1126,6 +1144,77 @@ Lemma left_by_pres {A} (m : M A) hX h r h' :
 Proof.
   intros Hp Us Eq. apply Hp in Eq. unfold uc in Eq. inversion Eq as [[A1 A2]]. unfold users in *. congruence.
 Qed.
+
+Lemma new_oauth2_exact pid blank hX r h1 :
+  try (backend (e_O E) KNewOAuth2 (fun h =>
+         match ulookup pid (s_users (h_st h)) with Some u => (Ok u, h) | None => (Ok blank, h) end))
+      (fun r => match r with Ok u => ret u | Err _ => fail ErrOther | Panic => panic end) hX = (r, h1) ->
+  r = Ok (match ulookup pid (users hX) with Some u => u | None => blank end) /\ uc h1 = uc hX.
+Proof.
+  unfold try. rewrite (backend_nofault E nofaults). unfold users. cbn beta. cbn [h_st set].
+  destruct (ulookup pid (s_users (h_st hX))); intros Eq; inversion Eq; split; reflexivity.
+Qed.
+
+(* the OAuth2 callback: Before(EventOAuth2) is the lock module's LOkBefore on the provider account
+   (created on the spot if new); no event of this flow ever applies LOkAfter or LFail *)
+Theorem oauth2_end_lemma prov h r h' :
+  oauth2_end E prov h = (r, h') -> keyed (h_st h) ->
+  let pa := o_provider (e_O E) in
+  let opid := make_oauth2_pid prov (pa_uid pa) in
+  let u0 := match ulookup opid (users h) with
+            | Some u => u
+            | None => blank_user <| u_pid := opid |> <| u_ouid := pa_uid pa |> <| u_oprov := prov |>
+                                 <| u_email := pa_email pa |> <| u_confirmed := true |>
+                                 <| u_last := zero_time |> <| u_locked := zero_time |>
+                                 <| u_rexp := zero_time |> <| u_oexp := zero_time |>
+            end in
+  let u := u0 <| u_oprov := prov |> <| u_otoken := pa_token pa |> <| u_oexp := pa_expiry pa |>
+              <| u_orefresh := (if bempty (pa_refresh pa) then u_orefresh u0 else pa_refresh pa) |> in
+  users h' = users h \/ applied opid u [OKB] h h'.
+Proof.
+  intros Eq Ky pa opid u0 u. unfold oauth2_end in Eq.
+  unfold bind at 1, log at 1, modify at 1 in Eq.
+  destruct (negb (bmem prov (c_providers cfg))); [left; inversion Eq; reflexivity|].
+  destruct (alookup k_oauth_state (e_sess E)) as [want|]; [|left; inversion Eq; reflexivity].
+  destruct (negb (beqb (form_value E f_state) want)); [left; inversion Eq; reflexivity|].
+  cbv zeta in Eq. do 2 skip_mod Eq.
+  destruct (negb (bempty (form_value E f_error))).
+  { left. eapply left_by_pres; [| |exact Eq]; [pres_go|reflexivity]. }
+  destruct (negb (pa_exchange_ok (o_provider (e_O E)))); [left; inversion Eq; reflexivity|].
+  destruct (negb (pa_details_ok (o_provider (e_O E)))); [left; inversion Eq; reflexivity|].
+  apply bind_inv in Eq as [(x & h1 & E1 & E2)|[(e & E1 & ->)|(E1 & ->)]];
+    apply new_oauth2_exact in E1 as (R & U1); try discriminate R.
+  inversion R; subst x. clear R.
+  match type of U1 with uc h1 = uc ?hX => change (users hX) with (users h) in E2 end.
+  fold pa opid in E2. fold u0 in E2. fold u in E2.
+  assert (Us1 : users h1 = users h) by (unfold uc in U1; inversion U1 as [[A1 A2]]; exact A1).
+  assert (Pk : u_pid u = opid).
+  { change (u_pid u0 = opid). unfold u0. destruct (ulookup opid (users h)) eqn:Lk; [exact (Ky _ _ Lk)|reflexivity]. }
+  unfold bind at 1 in E2. rewrite (backend_nofault E nofaults) in E2. unfold modify at 1 in E2.
+  unfold bind at 1, set_cuser at 1, modify at 1 in E2.
+  right. apply at_applied.
+  match type of E2 with _ ?hS = _ =>
+    assert (I : at_ opid u (users h) hS) end.
+  { apply at_after_save with (h := h); [exact Pk|reflexivity| |reflexivity].
+    change (uput (u_pid u) u (users h1) = uput opid u (users h)). rewrite Us1, Pk. reflexivity. }
+  assert (N1 : EvBeforeOAuth2 <> EvAfterRegister) by discriminate.
+  assert (N2 : EvBeforeOAuth2 <> EvBeforeHijack) by discriminate.
+  destruct (fire_bind EvBeforeOAuth2 false _ _ _ _ _ _ _ N1 N2 I E2) as (b & h2 & I2 & E3).
+  cbn [hooks_of_mod ops_of flat_map hook_op app] in I2.
+  destruct b; [inversion E3; subst; exact I2|].
+  do 2 skip_mod E3.
+  assert (N3 : EvAfterOAuth2 <> EvAfterRegister) by discriminate.
+  assert (N4 : EvAfterOAuth2 <> EvBeforeHijack) by discriminate.
+  match type of E3 with _ ?hh = _ => assert (I3 : at_ opid (lrunu u [OKB]) (users h) hh)
+    by (eapply at_mod; [exact I2|reflexivity]) end.
+  destruct (fire_bind EvAfterOAuth2 _ _ _ _ _ _ _ _ N3 N4 I3 E3) as (b & h3 & I4 & E4).
+  cbn [hooks_of_mod ops_of flat_map hook_op app] in I4. rewrite lrunu_nil in I4.
+  destruct b; [inversion E4; subst; exact I4|].
+  eapply at_pres; [|exact I4|exact E4]. apply pres_redirect. exact _.
+Qed.
+Section Readable2.
+Hypothesis Bb : q_badbody (e_req E) = false.
+Hypothesis Api : c_api cfg = true -> q_meth (e_req E) <> GET.
 
 (* /recover/end: a wrong, expired or malformed token is counted against nobody; a completed reset
    is no failure either - with login-after-recovery it is a login (LOkBefore, LOkAfter) *)
@@ -1169,7 +1258,9 @@ Proof.
     assert (I : at_ (u_pid u) (u <| u_password := pwhash (e_C E) (aget f_password vals) |> <| u_rsel := [] |>
                                  <| u_rver := [] |> <| u_rexp := now |>) (users h) hS)
       by (apply at_after_save with (h := h); reflexivity) end.
-  apply fire_bind with (1 := ltac:(discriminate)) (2 := ltac:(discriminate)) (3 := I) in Eq as (b0 & h1 & I1 & Eq).
+  assert (N1 : EvAfterRecoverEnd <> EvAfterRegister) by discriminate.
+  assert (N2 : EvAfterRecoverEnd <> EvBeforeHijack) by discriminate.
+  destruct (fire_bind EvAfterRecoverEnd false _ _ _ _ _ _ _ N1 N2 I Eq) as (b0 & h1 & I1 & Eq1). clear Eq. rename Eq1 into Eq.
   cbn [hooks_of_mod ops_of flat_map] in I1. rewrite lrunu_nil in I1.
   destruct (c_recover_login cfg).
   - apply before_part with (1 := I1) in Eq as [(Bl & _ & I2)|(Bl & h2 & I2 & Eq)].
@@ -1183,7 +1274,8 @@ Proof.
         eapply at_mod; [exact I3|reflexivity].
   - rewrite lrunu_nil. eapply at_pres; [|exact I1|exact Eq]. apply pres_redirect. exact _.
 Qed.
-End Readable.
+
+End Readable2.
 End Handlers.
 
 End LW.
@@ -1224,3 +1316,13 @@ Proof.
   revert s. induction l as [|a l IH]; intros s; [reflexivity|].
   cbn [fold_left concat]. rewrite IH. unfold lrun. rewrite fold_left_app. reflexivity.
 Qed.
+
+(* whole request histories: each credential-checking request contributes its (<= 2) machine
+   operations; the triple threaded through them is the declarative streak / lock instant *)
+From AB Require Import Spec.C04 Proofs.LockProofs.
+
+Theorem histories_refine_lemma : forall c (reqs : list (list lop)),
+  let s := fold_left (lrun c) reqs l_init in
+  l_count s = streak c (rev (concat reqs)) /\ l_last s = last_stamp c (rev (concat reqs)) /\
+  l_locked s = locked_until c (rev (concat reqs)).
+Proof. intros c reqs. cbv zeta. rewrite lrun_concat. apply c04_refines_lemma. Qed.
